@@ -33,6 +33,17 @@ type CLIResult struct {
 // registered, scenario "s") with args in virtual time on the default schedule.
 // body decides what each iteration does.
 func RunCLI(args []string, horizon time.Duration, body func(t *f1testing.T)) *CLIResult {
+	return RunCLIScenario(args, horizon, func(*f1testing.T) f1testing.RunFn {
+		return func(t *f1testing.T) {
+			if body != nil {
+				body(t)
+			}
+		}
+	})
+}
+
+// RunCLIScenario is RunCLI with a full scenario function (setup included).
+func RunCLIScenario(args []string, horizon time.Duration, scenario f1testing.ScenarioFn) *CLIResult {
 	res := &CLIResult{}
 	out := vrt.RunDefault(func() {
 		reg := prometheus.NewRegistry()
@@ -41,11 +52,10 @@ func RunCLI(args []string, horizon time.Duration, body func(t *f1testing.T)) *CL
 		output := ui.NewOutput(DiscardLogger(), ui.NewDiscardPrinter(), false, true)
 		scs := scenarios.New().Add(&scenarios.Scenario{Name: "s", ScenarioFn: func(t *f1testing.T) f1testing.RunFn {
 			res.SetupCalls++
+			fn := scenario(t)
 			return func(t *f1testing.T) {
 				res.Iterations++
-				if body != nil {
-					body(t)
-				}
+				fn(t)
 			}
 		}})
 		cmd := run.Cmd(scs, trigger.GetBuilders(output), envsettings.Settings{}, m, output)
